@@ -47,6 +47,9 @@ func TestVerifC14(t *testing.T) {
 
 var c14Watchdog = 20 * time.Second
 
+// how long a case that is known to hang (see neverEnds) is observed before it is declared hung
+var c14HangWait = 1500 * time.Millisecond
+
 func init() {
 	if v, err := strconv.Atoi(os.Getenv("C14_WATCHDOG_MS")); err == nil && v > 0 {
 		c14Watchdog = time.Duration(v) * time.Millisecond
@@ -60,6 +63,14 @@ type c14Pipe struct {
 	cond   *sync.Cond
 	buf    []byte
 	closed bool
+	held   bool // delivery suspended (the reader sees nothing until release)
+}
+
+func (p *c14Pipe) hold(v bool) {
+	p.mu.Lock()
+	p.held = v
+	p.cond.Broadcast()
+	p.mu.Unlock()
 }
 
 func newC14Pipe() *c14Pipe { p := &c14Pipe{}; p.cond = sync.NewCond(&p.mu); return p }
@@ -67,7 +78,7 @@ func newC14Pipe() *c14Pipe { p := &c14Pipe{}; p.cond = sync.NewCond(&p.mu); retu
 func (p *c14Pipe) read(b []byte) (int, error) {
 	p.mu.Lock()
 	defer p.mu.Unlock()
-	for len(p.buf) == 0 && !p.closed {
+	for (len(p.buf) == 0 || p.held) && !p.closed {
 		p.cond.Wait()
 	}
 	if len(p.buf) == 0 {
@@ -151,6 +162,35 @@ func (r *c14Rec) sawSettingsAck(dir int) bool {
 	return false
 }
 
+// sentOnStream: DATA bytes written on a stream in direction dir, and whether END_STREAM was written.
+func (r *c14Rec) sentOnStream(dir int, sid uint32) (n int, ended bool) {
+	r.mu.Lock()
+	defer r.mu.Unlock()
+	for _, f := range r.frames {
+		if f.dir != dir || f.sid != sid {
+			continue
+		}
+		if f.typ == 0 {
+			n += len(f.payload)
+		}
+		if (f.typ == 0 || f.typ == 1) && f.flags&1 != 0 {
+			ended = true
+		}
+	}
+	return
+}
+
+func (r *c14Rec) sawGoAway(dir int, code uint32) bool {
+	r.mu.Lock()
+	defer r.mu.Unlock()
+	for _, f := range r.frames {
+		if f.dir == dir && f.typ == 7 && len(f.payload) >= 8 && binary.BigEndian.Uint32(f.payload[4:8]) == code {
+			return true
+		}
+	}
+	return false
+}
+
 type c14Addr struct{}
 
 func (c14Addr) Network() string { return "c14" }
@@ -220,6 +260,16 @@ type c14Resp struct {
 	trlDecl []c14KV // declared in the Trailer header, set after the body
 	trlUndc []c14KV // set with the "Trailer:" key prefix after the body
 }
+
+// neverEnds: Body == nil with a non-empty Trailer. The Transport leaves END_STREAM off the
+// HEADERS frame (trailers are announced) and then skips the body/trailer phase entirely.
+func (r *c14Req) neverEnds() bool { return r.nilBody && len(r.trl) > 0 }
+
+const (
+	sigNeverEnds   = "nil-body-with-trailers-never-ends"
+	sigEarlyWindow = "early-data-exceeds-unacked-initial-window"
+	sigEarlyHpack  = "early-hpack-table-size-unacked"
+)
 
 func c14HexS(s string) string { return vu.Hex([]byte(s)) }
 
@@ -413,6 +463,7 @@ func (b *c14Body) Close() error { b.closed = true; return nil }
 
 type c14SeenReq struct {
 	got      bool
+	reading  bool // the handler has not finished reading the body
 	method   string
 	uri      string
 	host     string
@@ -483,7 +534,7 @@ func (c *c14Case) handler(w http.ResponseWriter, r *http.Request) {
 		return
 	}
 	sp := c.resps[idx]
-	seen := &c14SeenReq{got: true, method: r.Method, uri: r.RequestURI, host: r.Host, proto: r.Proto,
+	seen := &c14SeenReq{got: true, reading: true, method: r.Method, uri: r.RequestURI, host: r.Host, proto: r.Proto,
 		cl: r.ContentLength, header: c14CloneHeader(r.Header), declared: c14SortedKeys(r.Trailer)}
 	c.mu.Lock()
 	dup := c.seenReq[idx].got
@@ -512,6 +563,9 @@ func (c *c14Case) handler(w http.ResponseWriter, r *http.Request) {
 			}
 		}
 		seen.trailer = c14CloneHeader(r.Trailer)
+		c.mu.Lock()
+		seen.reading = false
+		c.mu.Unlock()
 	}
 	if sp.mode == 0 {
 		readBody()
@@ -604,6 +658,9 @@ func (c *c14Case) client(cc *ClientConn, i int, done chan<- int) {
 		req.Trailer = http.Header{}
 		for _, kv := range sp.trl {
 			req.Trailer[kv.k] = nil
+			if sp.nilBody {
+				req.Trailer[kv.k] = append([]string(nil), kv.vv...)
+			}
 		}
 	}
 	res, err := cc.RoundTrip(req)
@@ -768,7 +825,31 @@ func c14Exec(ops []string, o *vu.Out) {
 
 	timedOut := false
 	var ccErr error
-	watchdog := time.NewTimer(c14Watchdog)
+	wd := c14Watchdog
+	hangExpected := n == 1 && c.reqs[0].neverEnds()
+	if hangExpected {
+		wd = c14HangWait
+	}
+	if c.cfg.early == 1 {
+		// the client must not see anything from the server (in particular its SETTINGS) until it
+		// has sent all it may send under the protocol's initial values
+		s2c.hold(true)
+		go func() {
+			deadline := time.Now().Add(wd)
+			limit := len(c.reqs[0].body)
+			if limit > 65535 {
+				limit = 65535
+			}
+			for time.Now().Before(deadline) {
+				if sent, ended := rec.sentOnStream(0, 1); ended || (sent >= limit && limit > 0 && len(c.reqs[0].body) > 65535) {
+					break
+				}
+				time.Sleep(100 * time.Microsecond)
+			}
+			s2c.hold(false)
+		}()
+	}
+	watchdog := time.NewTimer(wd)
 	defer watchdog.Stop()
 	cc, ccErr := tr.NewClientConn(cconn)
 	if ccErr == nil && c.cfg.early == 0 {
@@ -848,8 +929,36 @@ func c14Exec(ops []string, o *vu.Out) {
 	if ccErr != nil {
 		o.Fail("newclientconn", ccErr.Error())
 	}
+	if c.cfg.early == 1 {
+		// oracle-only scenario: the frames are not part of the trace
+		c.mu.Lock()
+		defer c.mu.Unlock()
+		if timedOut {
+			o.Fail("hang", fmt.Sprintf("early exchange did not finish within %v", wd))
+		} else {
+			c.earlyOracle(rec, o)
+		}
+		o.Op("end", "ok")
+		return
+	}
+	if timedOut && hangExpected {
+		sent, ended := rec.sentOnStream(0, 1)
+		c.mu.Lock()
+		defer c.mu.Unlock()
+		if !ended && sent == 0 && c.seenReq[0].got {
+			o.Fail(sigNeverEnds, "Request with Body == nil and a non-empty Trailer: HEADERS without END_STREAM and nothing after it; the handler blocks reading the body, RoundTrip never returns")
+			c.emitFrames(rec, o)
+			o.Op("hreq 0", "incomplete")
+			o.Op("cres 0", "none")
+			o.Op("end", "finding "+sigNeverEnds)
+			return
+		}
+		o.Fail("hang", "unexpected state of a nil-body-with-trailers exchange")
+		o.Op("end", "timeout")
+		return
+	}
 	if timedOut {
-		o.Fail("hang", fmt.Sprintf("exchange did not finish within %v", c14Watchdog))
+		o.Fail("hang", fmt.Sprintf("exchange did not finish within %v", wd))
 		o.Op("end", "timeout")
 		return
 	}
@@ -927,6 +1036,9 @@ func (c *c14Case) showSeenReq(i int) string {
 	if !s.got {
 		return "none"
 	}
+	if s.reading {
+		return "incomplete"
+	}
 	if s.readErr != nil {
 		return "err body-read"
 	}
@@ -981,6 +1093,32 @@ func (c *c14Case) showSeenRes(i int) string {
 }
 
 // ---------------------------------------------------------------- property oracle
+
+// earlyOracle: the request was sent before the client could see the server's SETTINGS. The server
+// applies its own INITIAL_WINDOW_SIZE and HEADER_TABLE_SIZE from the start instead of from the
+// client's SETTINGS ACK on (RFC 9113 6.5.3), so a client using the protocol's initial values
+// (65535 / 4096) is refused. Both are reported under narrow signatures; anything else goes
+// through the regular oracle.
+func (c *c14Case) earlyOracle(rec *c14Rec, o *vu.Out) {
+	rq, sq, sr := c.reqs[0], c.seenReq[0], c.seenRes[0]
+	failed := sr.err != nil || !sq.got || sq.readErr != nil || !bytes.Equal(sq.body, rq.body) || sr.readErr != nil
+	if failed {
+		if c.cfg.sws > 0 && c.cfg.sws < 65535 && len(rq.body) > c.cfg.sws {
+			o.Stat("early:window-refused")
+			o.Fail(sigEarlyWindow, fmt.Sprintf("MaxUploadBufferPerStream=%d, %d body bytes sent before the server's SETTINGS were seen: %v / %v",
+				c.cfg.sws, len(rq.body), sr.err, sq.readErr))
+			return
+		}
+		if c.cfg.sdt > 0 && c.cfg.sdt < 4096 && rec.sawGoAway(1, uint32(ErrCodeCompression)) {
+			o.Stat("early:hpack-refused")
+			o.Fail(sigEarlyHpack, fmt.Sprintf("MaxDecoderHeaderTableSize=%d: header block encoded with the initial 4096-byte table refused with COMPRESSION_ERROR: %v",
+				c.cfg.sdt, sr.err))
+			return
+		}
+	}
+	o.Stat("early:delivered")
+	c.oracle(0, o)
+}
 
 var c14ReqDropped = map[string]bool{"host": true, "content-length": true, "connection": true, "proxy-connection": true,
 	"transfer-encoding": true, "upgrade": true, "keep-alive": true}
